@@ -113,6 +113,32 @@ func (e *Engine) verifyFunction(fn *ssa.Function, spec *FuncSpec, sweep bool) *F
 	}
 	fr.entrySt = st.clone()
 	entry := st.clone()
+	c.lockInit = map[string][][2]string{}
+	if spec != nil {
+		for _, h := range spec.Holds {
+			func() {
+				defer func() {
+					if r := recover(); r != nil {
+						if se, ok := r.(specErr); ok {
+							c.contractStale("holds", spec.Pos, se, nil)
+							return
+						}
+						panic(r)
+					}
+				}()
+				env := c.newEnv(fr, st, entry)
+				env.entryPar = true
+				val := "1"
+				e := h
+				if h.Op == "call" && h.Name == "r" {
+					val = "2"
+					e = h.Args[0]
+				}
+				l := env.evalLoc(e)
+				c.lockInit[lockArrayName(l)] = append(c.lockInit[lockArrayName(l)], [2]string{l.Base, val})
+			}()
+		}
+	}
 	if spec != nil {
 		// ghost vars
 		for _, g := range spec.GhostVars {
@@ -139,15 +165,7 @@ func (e *Engine) verifyFunction(fn *ssa.Function, spec *FuncSpec, sweep bool) *F
 			}
 			c.sc.assert(t)
 		}
-		for _, h := range spec.Holds {
-			env := c.newEnv(fr, st, entry)
-			env.entryPar = true
-			if t, err := c.heldTerm(env, h); err == nil {
-				c.sc.assert(t)
-			} else {
-				c.contractStale("holds", spec.Pos, err, nil)
-			}
-		}
+
 		c.assumeInvariants(fr, st, entry, spec)
 	}
 	fr.entrySt = st.clone()
@@ -158,13 +176,38 @@ func (e *Engine) verifyFunction(fn *ssa.Function, spec *FuncSpec, sweep bool) *F
 		fr.regs[p] = args[i]
 	}
 	c.execRegion(fr, nil, fn.Blocks[0], st, "true", &exits, nil)
-	for i, ex := range exits {
-		c.atReturn(fr, ex, i, len(exits))
-	}
 	if len(exits) == 0 {
 		c.note("function has no reachable return")
+	} else {
+		c.atReturn(fr, c.mergeExits(fr, exits), 0, 1)
 	}
 	return c
+}
+
+// mergeExits joins all returns into one exit so that each postcondition is one
+// obligation with a name that does not depend on the number of return statements.
+func (c *FnCtx) mergeExits(fr *Frame, exits []exitInfo) exitInfo {
+	if len(exits) == 1 {
+		return exits[0]
+	}
+	var ins []edgeIn
+	nres := len(exits[0].results)
+	for i := range exits {
+		st := exits[i].st.clone()
+		for j := 0; j < nres; j++ {
+			st.ghost[fmt.Sprintf("$ret.%d.%d", fr.id, j)] = exits[i].results[j]
+		}
+		ins = append(ins, edgeIn{st, exits[i].cond})
+	}
+	m, r := c.merge(ins)
+	m = m.clone()
+	var rs []Val
+	for j := 0; j < nres; j++ {
+		k := fmt.Sprintf("$ret.%d.%d", fr.id, j)
+		rs = append(rs, m.ghost[k])
+		delete(m.ghost, k)
+	}
+	return exitInfo{st: m, cond: r, results: rs}
 }
 
 func clauseName(cl Clause, i int) string {
@@ -308,6 +351,21 @@ func (c *FnCtx) runGhostAtState(fr *Frame, st *State, a Anchor) {
 	if c.spec == nil || fr != c.top {
 		return
 	}
+	for _, u := range c.spec.Unfolds {
+		if !anchorMatch(u.Anchor, a) {
+			continue
+		}
+		env := c.newEnv(fr, st, c.top.entrySt)
+		if li := c.loopByOrd(fr, a); li != nil {
+			env = c.loopEnvSt(fr, st, li)
+		}
+		t, err := env.unfoldTerm(u.Call)
+		if err != nil {
+			c.contractStale("unfold", u.Pos, err, nil)
+			continue
+		}
+		c.sc.assert(t)
+	}
 	for _, g := range c.spec.GhostAt {
 		if !anchorMatch(g.Anchor, a) {
 			continue
@@ -341,6 +399,44 @@ func (c *FnCtx) runGhostAtState(fr *Frame, st *State, a Anchor) {
 			c.heapStore(st, ghostArrayName(l.Root, g.LHS.Name), arrSort(srt), bv.T, flatten(v)[0])
 		}
 	}
+}
+
+func (c *FnCtx) loopByOrd(fr *Frame, a Anchor) *loopInfo {
+	if a.Kind != "latch" && a.Kind != "head" {
+		return nil
+	}
+	for _, l := range fr.loops {
+		if l.ord == a.Loop {
+			return l
+		}
+	}
+	return nil
+}
+
+// unfoldTerm: `f(args)` becomes the instance `(f.def args)` of f's defining
+// equation, which the prelude provides as a define-fun named f.def.
+func (env *Env) unfoldTerm(call *Expr) (t string, err error) {
+	defer func() {
+		if r := recover(); r != nil {
+			if se, ok := r.(specErr); ok {
+				err = se
+				return
+			}
+			panic(r)
+		}
+	}()
+	// expand macros first: evaluate the call and take the resulting application
+	v := env.eval(call)
+	app := strings.TrimSpace(v.T)
+	if !strings.HasPrefix(app, "(") {
+		fail("%s: unfold target does not evaluate to an application", call.Pos)
+	}
+	parts := splitSexprs(app[1 : len(app)-1])
+	name := parts[0]
+	if _, ok := env.c.eng.specFns[name+".def"]; !ok {
+		fail("%s: no defining equation %s.def in the preludes", call.Pos, name)
+	}
+	return "(" + name + ".def " + strings.Join(parts[1:], " ") + ")", nil
 }
 
 // ---------------------------------------------------------------- object invariants
@@ -462,6 +558,14 @@ func (c *FnCtx) modTargets(env *Env, exprs []*Expr, pos string) []modTarget {
 				out = append(out, modTarget{kind: "chan", ref: v.T})
 			case m.Op == "sel" && strings.HasPrefix(m.Name, "$"):
 				bv := env.eval(m.Args[0])
+				if bv.K == KIface && bv.Ty != nil {
+					srt := env.ghostFieldSort(bv.Ty, m.Name)
+					if srt == "" {
+						fail("%s: ghost field %s not declared", pos, m.Name)
+					}
+					out = append(out, modTarget{kind: "ghostfield", prefix: ghostArrayName(bv.Ty, m.Name), ref: bv.Fs[1].T, name: srt})
+					return
+				}
 				l := c.ptrToLoc(bv)
 				if l == nil {
 					fail("%s: bad ghost field target", pos)
@@ -570,11 +674,11 @@ func (c *FnCtx) frameCheck(fr *Frame, st *State, cond string, spec *FuncSpec, su
 		if strings.HasPrefix(n, "LK:") || strings.HasPrefix(n, "ONCE:") {
 			continue // lock state: see lockBalance; once flags are monotone ghost state
 		}
-		srt := c.heapSorts[n]
+		_ = c.heapSorts[n]
 		r := c.sc.fresh("frame.r", "Int")
 		var allowed []string
 		whole := false
-		twoLevel := strings.HasPrefix(srt, "(Array Int (Array")
+		twoLevel := strings.HasPrefix(n, "E:") || strings.HasPrefix(n, "MV:") || strings.HasPrefix(n, "MP:")
 		k := ""
 		if twoLevel {
 			k = c.sc.fresh("frame.k", "Int")
@@ -786,8 +890,11 @@ func (c *FnCtx) applyContract(bc *blockCtx, spec *FuncSpec, cc *ssa.CallCommon, 
 	// effects
 	st := bc.st
 	env0 := mkEnv(pre)
-	targets := c.modTargets(env0, spec.Modifies, spec.Pos)
+	targets := c.modTargets(env0, append(append([]*Expr(nil), spec.Modifies...), spec.TrustedModifies...), spec.Pos)
 	c.havocTargets(st, targets)
+	if len(spec.TrustedEnsures) > 0 {
+		c.assumed[short+" (abstract clauses; "+spec.TrustedWhy+")"] = true
+	}
 	if !spec.Pure {
 		na := c.sc.fresh("alloc", "Int")
 		c.sc.assert("(>= " + na + " " + st.alloc + ")")
@@ -829,7 +936,7 @@ func (c *FnCtx) applyContract(bc *blockCtx, spec *FuncSpec, cc *ssa.CallCommon, 
 			c.sc.assert(sImp(bc.reach, sOr("(= "+t+" 0)", "(> "+t+" "+pre.alloc+")")))
 		}
 	}
-	for i, en := range spec.Ensures {
+	for i, en := range append(append([]Clause(nil), spec.Ensures...), spec.TrustedEnsures...) {
 		t, err := post.evalBool(en.E)
 		if err != nil {
 			c.contractStale("call:"+label+":ensures:"+clauseName(en, i), en.Pos, err, nil)
